@@ -202,9 +202,14 @@ pub fn gen(seed: u64, n: usize, _tier: &str) -> Vec<Case> {
     cases
 }
 
+/// alive, serving a fresh connection, sentinel intact.  A server that is merely slow (a 20 MB reply, a 256 MB
+/// value, sixteen servers of the other shards and whatever else the machine runs) is given time as long as its
+/// process lives: "hung" means no answer for 60 s, "dead" is decided at once.
 fn healthy(srv: &mut Srv) -> bool {
     if !srv.alive() { return false; }
-    for _ in 0..2 {
+    let t0 = std::time::Instant::now();
+    while t0.elapsed() < Duration::from_secs(60) {
+        if !srv.alive() { return false; }
         if let Some(mut c) = Client::connect(srv.port) {
             let mut w = vec![]; V::cmd(&[b"PING"]).wire(&mut w); V::cmd(&[b"GET", b"sentinel"]).wire(&mut w); c.send(&w);
             let a = c.read(4000); let b2 = c.read(4000);
